@@ -333,7 +333,9 @@ func (s *Session) onSetup(resp *rtsp.Response, req *rtsp.Request) {
 		return
 	}
 
-	err := s.transport.ParseTransport(chindex, ts)
+	// 在副本上解析，SETUP 被接受后才写回会话；被拒绝的 SETUP 不能改变已建立的传输设置
+	transport := s.transport
+	err := transport.ParseTransport(chindex, ts)
 	if err != nil {
 		resp.StatusCode = rtsp.StatusInvalidParameter
 		resp.Status = err.Error()
@@ -341,18 +343,19 @@ func (s *Session) onSetup(resp *rtsp.Response, req *rtsp.Request) {
 	}
 
 	// 检查必须是play模式
-	if rtsp.PlaySession != s.transport.Mode {
+	if rtsp.PlaySession != transport.Mode {
 		resp.StatusCode = rtsp.StatusInvalidParameter
 		resp.Status = "can't setup as record"
 		return
 	}
 
-	if s.transport.Type != rtsp.RTPTCPUnicast { // 需要修改回复的transport
+	if transport.Type != rtsp.RTPTCPUnicast { // 需要修改回复的transport
 		resp.StatusCode = rtsp.StatusUnsupportedTransport
 		resp.Status = "websocket only support tcp unicast"
 		return
 	}
 
+	s.transport = transport
 	if s.status < statusReady { // 初始状态切换到Ready
 		s.status = statusReady
 	}
@@ -434,14 +437,16 @@ func (s *Session) newResponse(code int, req *rtsp.Request) *rtsp.Response {
 }
 
 func (s *Session) parseSdp(rawSdp string) (err error) {
-	// 从流中取 sdp
-	s.rawSdp = rawSdp
-	// 解析
-	s.sdp, err = sdp.ParseString(s.rawSdp)
+	// 解析；失败时保持会话原有的描述不变
+	parsed, err := sdp.ParseString(rawSdp)
 	if err != nil {
 		return
 	}
 
+	s.rawSdp = rawSdp
+	s.sdp = parsed
+	// 新的描述替换旧的描述，旧描述中的控制路径不能保留
+	s.vControl, s.vCodec, s.aControl, s.aCodec = "", "", "", ""
 	for _, media := range s.sdp.Media {
 		switch media.Type {
 		case "video":
